@@ -6,6 +6,7 @@ mod emit;
 mod fakeai;
 mod filegen;
 mod imp;
+mod mainargs;
 mod prng;
 mod reflect;
 mod props {
